@@ -723,6 +723,7 @@ RefResult run(const Model& m, const char* bytes, int64_t n, const RunOptions& op
                 Act a; a.k = Act::SHIFT_ERR; a.a = act.arg; a.line = line; a.col = col; a.s = g.term_name(t);
                 res.acts.push_back(a);
                 states.push_back(act.arg);
+                res.max_depth = std::max(res.max_depth, int(states.size()));
                 values.push_back(Val{ sim::error_leaf_digest(), sim::error_leaf_digest(), "<error>" });
                 recovering = false;
                 Act l; l.k = Act::LEAVE_RECOVERY; l.line = line; l.col = col; res.acts.push_back(l);
@@ -736,6 +737,7 @@ RefResult run(const Model& m, const char* bytes, int64_t n, const RunOptions& op
             Act a; a.k = Act::SHIFT; a.a = act.arg; a.line = line; a.col = col; a.s = lex;
             res.acts.push_back(a);
             states.push_back(act.arg);
+            res.max_depth = std::max(res.max_depth, int(states.size()));
             Val v;
             v.digest = sim::leaf_digest(lex, uint32_t(cur.line), uint32_t(cur.col));
             v.sdigest = sim::leaf_digest(lex, 0, 0);
@@ -806,6 +808,7 @@ RefResult run(const Model& m, const char* bytes, int64_t n, const RunOptions& op
             Act go; go.k = Act::GOTO; go.a = gt; go.line = line; go.col = col;
             res.acts.push_back(go);
             states.push_back(gt);
+            res.max_depth = std::max(res.max_depth, int(states.size()));
             values.push_back(std::move(v));
             continue;
         }
